@@ -5,6 +5,7 @@ CONSTANTS
   TTL = 5
   Validity = 2
   MaxClock = 0
+  Margin = 1
   NoReverify = FALSE
   KeyIgnoresName = FALSE
 INIT Init
